@@ -1,11 +1,11 @@
 (* C10 — model of cspuz/graph.py::active_edges_connected_crossable (and its
-   alias active_edges_single_cycle_crossable), of the callee
-   _active_vertices_connected (local copy of its non-acyclic branches), of the
-   BoolGridFrame accessors the function uses, and the specification of the
-   property ("single self-crossing trail"), which does not mention the auxiliary
-   3-nodes-per-point graph of the code.  No proofs in this file. *)
+   alias active_edges_single_cycle_crossable), of the BoolGridFrame accessors
+   the function uses, and the specification of the property ("single
+   self-crossing trail"), which does not mention the auxiliary
+   3-nodes-per-point graph of the code.  The callee _active_vertices_connected
+   is the model of C04 (Graph/Avc.v::post_avc).  No proofs in this file. *)
 From Coq Require Import ZArith List Bool Arith.
-From Cspuz Require Import Lib.PyErr Core.Expr Core.Program Core.Build Graph.GraphModel.
+From Cspuz Require Import Lib.PyErr Core.Expr Core.Program Core.Build Graph.GraphModel Graph.Avc.
 Import ListNotations.
 Open Scope nat_scope.
 
@@ -60,38 +60,6 @@ Definition count_true_t (l : list expr) : expr :=
   | [] => INode INT_CONSTANT [PyInt 0%Z]
   | ops => INode ADD ops
   end.
-
-(* ------------------------------------------------------------------------ *)
-(* graph.py::_active_vertices_connected(solver, is_active, graph,
-   acyclic=False, use_graph_primitive=prim); local copy (the caller below always
-   passes len(is_active) = graph.num_vertices) *)
-
-Definition avc_less_ranks (ranks acts : list expr) (g : graph) (i : nat) : list expr :=
-  map (fun jk => b_and (i_lt (nth (fst jk) ranks PyNone) (nth i ranks PyNone))
-                       (nth (fst jk) acts PyNone))
-      (incident g i).
-
-Definition avc_vertex_con (ranks roots acts : list expr) (g : graph) (i : nat) : expr :=
-  b_imp (nth i acts PyNone)
-        (i_ge (count_true_t (avc_less_ranks ranks acts g i ++ [nth i roots PyNone])) (PyInt 1%Z)).
-
-Definition avc_primitive_node (acts : list expr) (g : graph) : expr :=
-  BNode G_AVC ([PyInt (Z.of_nat (nv g)); PyInt (Z.of_nat (length (edges g)))] ++ acts ++
-               flat_map (fun ab => [PyInt (Z.of_nat (fst ab)); PyInt (Z.of_nat (snd ab))]) (edges g)).
-
-Definition post_avc (st : state) (acts : list expr) (g : graph) (prim : bool) : res state :=
-  if negb (Nat.eqb (length acts) (nv g)) then
-    (if prim then Err ValueError else Err OtherError (* outside this local copy *))
-  else if prim then Ok (ensure st [avc_primitive_node acts g])
-  else
-    let n := nv g in
-    match int_array st n 0%Z (Z.of_nat n - 1)%Z with
-    | Err e => Err e
-    | Ok (st1, ranks) =>
-        let '(st2, roots) := bool_array st1 n in
-        let st3 := ensure st2 (map (avc_vertex_con ranks roots acts g) (seq 0 n)) in
-        Ok (ensure st3 [i_le (count_true_t roots) (PyInt 1%Z)])
-    end.
 
 (* ------------------------------------------------------------------------ *)
 (* the auxiliary graph of active_edges_connected_crossable on H x W lattice
@@ -168,7 +136,7 @@ Definition post_crossable_body (st : state) (fr : frame) (single_cycle prim : bo
   let st8 := ensure st7 (zip_with b_iff single (zip_with b_and passed (map b_not cross))) in
   let st9 := ensure st8 (zip_with b_iff dh cross) in
   let st10 := ensure st9 (zip_with b_iff dv cross) in
-  match post_avc st10 (split_actives fr single dh dv) (split_graph H W) prim with
+  match post_avc st10 (split_actives fr single dh dv) (split_graph H W) false prim with
   | Err e => Err e
   | Ok st11 => Ok (st11, (passed, cross))
   end.
@@ -258,64 +226,7 @@ Definition seg_expr (fr : frame) (s : seg) : expr :=
   | Seg false y x => hor_at fr y x
   end.
 
-Section Pattern.
-  Variable gsem : op -> list (option value) -> option bool.
-  Definition pattern (en : env) (fr : frame) (s : seg) : bool := holds gsem en (seg_expr fr s).
-End Pattern.
-
-(* ------------------------------------------------------------------------ *)
-(* new part of a program: what a helper added to the state it was given *)
-
-Definition new_cons (st st' : state) : list expr := skipn (length (cons st)) (cons st').
-Definition new_in_bounds (en : env) (st st' : state) : bool :=
-  in_bounds_from en (next_id st) (skipn (next_id st) (vars st')).
-
-(* ------------------------------------------------------------------------ *)
-(* meaning of Op.GRAPH_ACTIVE_VERTICES_CONNECTED on evaluated operands
-   [n; m; act_0 .. act_{n-1}; a_0; b_0; ...; a_{m-1}; b_{m-1}]: *defined* as
-   connectivity of the active vertices (the external solver is trusted to
-   implement it) *)
-
-Fixpoint pair_up (l : list Z) : option (list (nat * nat)) :=
-  match l with
-  | [] => Some []
-  | a :: b :: r =>
-      match pair_up r with
-      | Some r' => if ((0 <=? a) && (0 <=? b))%Z then Some ((Z.to_nat a, Z.to_nat b) :: r') else None
-      | None => None
-      end
-  | _ => None
-  end.
-
-Definition avc_decode (vs : list (option value)) : option (graph * list bool) :=
-  match vs with
-  | Some (VI n) :: Some (VI m) :: rest =>
-      if ((0 <=? n) && (0 <=? m))%Z then
-        let n' := Z.to_nat n in
-        match all_some (firstn n' rest), all_some (skipn n' rest) with
-        | Some av, Some ev =>
-            match as_bools av, as_ints ev with
-            | Some acts, Some es =>
-                match pair_up es with
-                | Some el =>
-                    if Nat.eqb (length acts) n' && Nat.eqb (length el) (Z.to_nat m)
-                    then Some ({| nv := n'; edges := el |}, acts) else None
-                | None => None
-                end
-            | _, _ => None
-            end
-        | _, _ => None
-        end
-      else None
-  | _ => None
-  end.
-
-Definition gsem_connectivity (o : op) (vs : list (option value)) : option bool :=
-  match o with
-  | G_AVC =>
-      match avc_decode vs with
-      | Some (g, acts) => Some (connected_b g (fun v => nth v acts false))
-      | None => None
-      end
-  | _ => None
-  end.
+(* (the native graph operator, which a caller's expression might contain, is
+   given C04's meaning gsem_avc) *)
+Definition seg_pattern (en : env) (fr : frame) (s : seg) : bool :=
+  holds gsem_avc en (seg_expr fr s).
